@@ -44,6 +44,9 @@ def check_triple(res, ns, nswin, overlap, WG, fs=30000.0):
         return 0
     res.count("triples")
     n = len(fl)
+    if n == 0:
+        res.violation("firstlast:no-window:" + ("ns<=overlap" if ns <= overlap else "other"), f"{T}: no window produced (nwin announced {wg.nwin})")
+        return 0
     first = np.array([a for a, _ in fl])
     last = np.array([b for _, b in fl])
     res.check(first[0] == 0, "firstlast:start", f"{T}: first window starts at {first[0]}")
